@@ -400,6 +400,27 @@ def wl_inject(ctx, rng, i):
                     elif not flag and st2 == "refused":
                         ctx.violation("custom-content-not-flagged:" + site, "%s %s: host built from a pre-built %s with custom content has has_custom False, yet a strict parse of its serialisation is refused" % (ver, t, section),
                                       dict(case, text=text[:2000], strict_error=repr(r2)[:300]))
+        # a new version of a strict object: custom content among the changes is refused unless the caller opts in, and an empty
+        # custom_properties mapping opts into nothing (it does not in the constructors either)
+        if cls is not None and "modified" in o and not o.get("revoked"):
+            import stix2.versioning
+            st0, base_obj = run(lambda: cls(allow_custom=False, **copy.deepcopy(o)))
+            if st0 == "returned":
+                for lab, kw in (("plain-keyword", {"x_smuggled": 1}), ("empty-custom-properties", {"custom_properties": {}, "x_smuggled": 1}),
+                                ("custom-properties-none", {"custom_properties": None, "x_smuggled": 1}),
+                                ("empty-custom-properties-method", {"custom_properties": {}, "x_smuggled": 1})):
+                    if lab.endswith("method"):
+                        st, r = run(lambda: base_obj.new_version(**copy.deepcopy(kw)))
+                    else:
+                        st, r = run(lambda: stix2.versioning.new_version(base_obj, **copy.deepcopy(kw)))
+                    ctx.ev()
+                    ctx.count("strict_attempts")
+                    ctx.count("versioning_injections")
+                    ctx.see("sites", "new-version:" + lab)
+                    if st == "returned":
+                        ctx.violation("custom-admitted-in-strict-mode:new-version-with-" + lab, "%s %s: new_version(%s) of a strict object accepted a custom property nobody opted into" % (
+                            ver, t, ", ".join("%s=%r" % kv for kv in kw.items())), {"version": ver, "type": t, "input": o, "changes": kw, "entry_point": "new_version"})
+                        break
         if ctx.want_sample() and n:
             ctx.sample({"version": ver, "type": t, "base": o, "injection_sites": n})
     finally:
@@ -572,6 +593,8 @@ def floors(m, tier):
     if c.get("strict_attempts", 0) < 2000:
         out.append("fewer than 2000 strict-mode attempts")
     sites = m["seen"].get("sites", set())
+    if c.get("versioning_injections", 0) < 100:
+        out.append("fewer than 100 custom properties offered to new_version of a strict object (%d)" % c.get("versioning_injections", 0))
     if c.get("instance_injections", 0) < 100:
         out.append("fewer than 100 pre-built-instance injections (%d)" % c.get("instance_injections", 0))
     for s in ("custom-property", "custom-hash-algorithm", "reference-to-x-type", "reference-to-unregistered-type", "reference-to-type-of-the-other-version", "unregistered-extension",
